@@ -174,3 +174,13 @@ plan("C17", "exploration",
      "legitimate order so that committed states are reached; distinct = distinct event sequence with outcomes; non-trivial = all. Oracle: a reference lifecycle per (instance, account) "
      "fed by observed facts (which contribution exchanges the transport completed), checked in the directions the property states; the instant exactly at the timeout is left undecided.",
      q, t, real_vs_stub=REAL_W2)
+
+q, t = tiers(60, 90, 3000, 1500)
+q["require_probes"] = t["require_probes"] = ["duty_reached_threshold", "crash_restarts"]
+plan("C14", "exploration",
+     "one case = one seeded run: a real DKG creates a distributed account over n in [2,5] (thorough: 7) instances with drawn t in (n/2, n] and id set; an adversarial client then sends two "
+     "conflicting duties (same target/different data, surround either way, two blocks at one slot) by account name or share key, through single and batch endpoints, routed by a drawn "
+     "strategy (complementary halves, t-sized overlapping sets, both to every instance, drawn subsets with repeats), all requests of a phase concurrent under the seeded scheduler; half "
+     "the runs crash- or clean-restart instances and then retry both duties everywhere. distinct = distinct (n,t,conflict,strategy,restarts,schedule); non-trivial = at least one partial "
+     "signature was released. Oracle: BLS-valid partial signatures are counted per duty (one per instance): never both >= t; a duty that reaches t recovers a valid composite signature.",
+     q, t, real_vs_stub=REAL_W2)
